@@ -324,7 +324,14 @@ def check(prop: str) -> int:
             covers = mc["covers"]
             if "faults" in spec:
                 covers = [h for h in covers if has_fault(mc, h) == spec["faults"]]
-            rep.add_tlc(f"MC_{focus} depth {depth}", mc["summary"], {"histories_emitted": len(covers)})
+            emitted = len(covers)
+            cap = 9000 if tier == "quick" else 60000
+            if len(covers) > cap:   # replay every short history and a seeded sample of the longest ones
+                longest = max(len(h) for h in covers)
+                short = [h for h in covers if len(h) < longest]
+                long_ = [h for h in covers if len(h) == longest]
+                covers = short + rnd.sample(long_, max(0, cap - len(short)))
+            rep.add_tlc(f"MC_{focus} depth {depth}", mc["summary"], {"histories_emitted": emitted, "histories_replayed": len(covers)})
             tzs = [None]
             if prop == "C06":
                 tzs = TZS[:2] if tier == "quick" else TZS
